@@ -76,6 +76,40 @@ type SEv struct {
 	Name   string `json:"name"`
 	Kids   []int  `json:"kids"`
 	Code   int    `json:"code"` // enter: size of the code at the target when the frame was entered
+	// state facts the price of the instruction depends on (Artela side only; the trace specification prices SSTORE and calls from them)
+	Args  []int64 `json:"args"`  // call family: every stack operand as a small integer (-1: larger than 2^31)
+	Facts []int   `json:"facts"` // SSTORE: [slot warm]; call family: [target warm, exists, empty, value non-zero]; SELFDESTRUCT: [already destructed]; -1 unknown
+	Cur   string  `json:"cur"`   // SSTORE: current value of the slot
+	Orig  string  `json:"orig"`  // SSTORE: value of the slot at the start of the transaction
+}
+
+// factState remembers the answers the gas functions got from the access list (they add the entry before the tracer is called)
+type factState struct {
+	vm.StateDB
+	lastAddr     common.Address
+	lastAddrWarm int
+	lastSlotAddr common.Address
+	lastSlot     common.Hash
+	lastSlotWarm int
+}
+
+func (f *factState) AddressInAccessList(a common.Address) bool {
+	ok := f.StateDB.AddressInAccessList(a)
+	f.lastAddr, f.lastAddrWarm = a, b2i(ok)
+	return ok
+}
+
+func (f *factState) SlotInAccessList(a common.Address, k common.Hash) (bool, bool) {
+	aok, sok := f.StateDB.SlotInAccessList(a, k)
+	f.lastSlotAddr, f.lastSlot, f.lastSlotWarm = a, k, b2i(sok)
+	return aok, sok
+}
+
+func b2i(b bool) int {
+	if b {
+		return 1
+	}
+	return 0
 }
 
 func clamp(v uint64) int64 {
@@ -177,7 +211,64 @@ func (r *stepRec) step(k string, pc uint64, op int, gas, cost uint64, stack []ui
 }
 
 // Artela side
-type aRec struct{ stepRec }
+type aRec struct {
+	stepRec
+	fs *factState
+}
+
+// facts adds to the step event just recorded what the price of SSTORE / a call / SELFDESTRUCT depends on
+func (r *aRec) facts(op vm.OpCode, scope *vm.ScopeContext) {
+	if r.fs == nil || len(r.evs) == 0 || (r.limit > 0 && len(r.evs) >= r.limit) {
+		return
+	}
+	e := &r.evs[len(r.evs)-1]
+	st := scope.Stack.Data()
+	n := len(st)
+	self := scope.Contract.Address()
+	switch op {
+	case vm.SSTORE:
+		if n < 2 {
+			return
+		}
+		key := common.Hash(st[n-1].Bytes32())
+		cur, orig := r.fs.StateDB.GetState(self, key), r.fs.StateDB.GetCommittedState(self, key)
+		e.Cur = new(uint256.Int).SetBytes(cur[:]).Hex() // same rendering as the stack operands
+		e.Orig = new(uint256.Int).SetBytes(orig[:]).Hex()
+		w := -1
+		if r.fs.lastSlotAddr == self && r.fs.lastSlot == key {
+			w = r.fs.lastSlotWarm
+		}
+		e.Facts = []int{w}
+	case vm.CALL, vm.CALLCODE, vm.DELEGATECALL, vm.STATICCALL:
+		need := 6
+		if op == vm.CALL || op == vm.CALLCODE {
+			need = 7
+		}
+		if n < need {
+			return
+		}
+		for i := 0; i < need; i++ {
+			v := st[n-1-i]
+			iv := int64(-1)
+			if v.IsUint64() && v.Uint64() < 1<<31 {
+				iv = int64(v.Uint64())
+			}
+			e.Args = append(e.Args, iv)
+		}
+		tgt := common.Address(st[n-2].Bytes20())
+		w := -1
+		if r.fs.lastAddr == tgt {
+			w = r.fs.lastAddrWarm
+		}
+		val := 0
+		if need == 7 && !st[n-3].IsZero() {
+			val = 1
+		}
+		e.Facts = []int{w, b2i(r.fs.StateDB.Exist(tgt)), b2i(r.fs.StateDB.Empty(tgt)), val}
+	case vm.SELFDESTRUCT:
+		e.Facts = []int{b2i(r.fs.StateDB.HasSuicided(self))}
+	}
+}
 
 func (r *aRec) CaptureTxStart(uint64) {}
 func (r *aRec) CaptureTxEnd(uint64)   {}
@@ -195,6 +286,9 @@ func (r *aRec) CaptureEnter(typ vm.OpCode, from, to common.Address, input []byte
 func (r *aRec) CaptureExit(out []byte, used uint64, err error) { r.exit(false, out, used, err) }
 func (r *aRec) CaptureState(pc uint64, op vm.OpCode, gas, cost uint64, scope *vm.ScopeContext, rData []byte, depth int, err error) {
 	r.step("step", pc, int(op), gas, cost, scope.Stack.Data(), scope.Memory.Data(), rData, depth, err)
+	if err == nil {
+		r.facts(op, scope)
+	}
 }
 func (r *aRec) CaptureFault(pc uint64, op vm.OpCode, gas, cost uint64, scope *vm.ScopeContext, depth int, err error) {
 	r.step("fault", pc, int(op), gas, cost, scope.Stack.Data(), scope.Memory.Data(), nil, depth, err)
@@ -478,9 +572,10 @@ func accessListWarm(p *gen.Program) ([]common.Address, []common.Hash) {
 
 func runArtela(p *gen.Program, o runOpts) (out runOut) {
 	st := prepState(p)
-	rec := &aRec{stepRec{limit: o.limit}}
+	rec := &aRec{stepRec: stepRec{limit: o.limit}}
 	rec.codeSize = func(a common.Address) int { return st.GetCodeSize(a) }
-	envo := evmx.EnvOpts{Fork: o.fork, State: st, ExtraEips: o.eips, Origin: gen.EO}
+	envo := evmx.EnvOpts{Fork: o.fork, State: st, ExtraEips: o.eips, Origin: gen.EO,
+		WrapState: func(s vm.StateDB) vm.StateDB { rec.fs = &factState{StateDB: s, lastAddrWarm: -1, lastSlotWarm: -1}; return rec.fs }}
 	e := evmx.NewEnv(envo)
 	var tee *aTee
 	var sl *alogger.StructLogger
@@ -562,6 +657,9 @@ func runArtela(p *gen.Program, o runOpts) (out runOut) {
 	}()
 	out.evs = rec.evs
 	out.result = resultEv(ret, left, err, panicked, st, rules.IsEIP158, addr)
+	if o.limit > 0 && len(rec.evs) >= o.limit {
+		out.result.Top = 1 // the recorded stream was cut
+	}
 	if o.tracer && panicked == "" {
 		truncated := o.limit > 0 && len(rec.evs) >= o.limit
 		out.tree = treeLines(e, truncated)
@@ -697,6 +795,9 @@ func runRef(p *gen.Program, o runOpts) (out runOut) {
 	}()
 	out.evs = rec.evs
 	out.result = resultEv(ret, left, err, panicked, st, rules.IsEIP158, addr)
+	if o.limit > 0 && len(rec.evs) >= o.limit {
+		out.result.Top = 1
+	}
 	if o.tracers && o.tracer {
 		names := make([]string, 0, len(named))
 		for n := range named {
@@ -726,6 +827,14 @@ func (p pairLine) MarshalJSON() ([]byte, error) {
 	}
 	if p.R.Kids == nil {
 		p.R.Kids = []int{}
+	}
+	for _, e := range []*SEv{&p.A, &p.R} {
+		if e.Args == nil {
+			e.Args = []int64{}
+		}
+		if e.Facts == nil {
+			e.Facts = []int{}
+		}
 	}
 	type plain pairLine
 	return json.Marshal(plain(p))
